@@ -704,12 +704,14 @@ pub fn gen(seed: u64, count: usize, tier: &str, params: &Params) -> Vec<Value> {
             "c18big" => {
                 // bulk vs single central moments where the sums overflow (finite data near the top of the range, or an infinity):
                 // only the bit-for-bit agreement of the two routines is judged (C18)
-                let n = rng.range(2, 5) as usize;
+                let n = rng.range(1, 5) as usize;
                 let r: Vec<i64> = (0..n).map(|_| rng.range(1, 3)).collect();
                 let shape = random_shape(&mut rng, n);
                 let (lay1, lay2) = two_lays(&mut rng, &shape);
                 let ty = *rng.pick(&["f64", "f32"]);
-                cases.push(json!({"ev": "summ", "stat": "moments", "ty": ty, "r": r, "w": [], "S": 1, "WS": 1, "p": rng.range(0, 4), "bexp": -1,
+                // sometimes an infinite or NaN observation (also as the only one)
+                let specials: Vec<Value> = if rng.chance(1, 3) { vec![json!([rng.below(n as u64), rng.range(1, 3)])] } else { vec![] };
+                cases.push(json!({"ev": "summ", "stat": "moments", "ty": ty, "r": r, "w": [], "S": 1, "WS": 1, "p": rng.range(0, 4), "bexp": -1, "specials": specials,
                                   "sexp": if ty == "f32" { 126 } else { 1022 }, "qe": 2, "tol": 2, "shape": shape, "axis": 0, "lay1": lay1, "lay2": lay2}));
             }
             "corr" if rng.chance(1, 8) => {
